@@ -90,6 +90,17 @@ Proof.
   - eexists. split; [vm_compute; reflexivity|]. vm_compute. repeat split; reflexivity.
 Qed.
 
+(* never a hang: stage two has no fuel.  The one loop whose count comes from the input, `for i in 0..no_samples`,
+   is run min(no_samples, bytes left + 1) times by the model (Names.clamp keeps the unary counter small); that is
+   EXACTLY the loop with no_samples iterations - every iteration consumes a byte or fails *)
+Theorem open2_loop_is_count_loop : forall pf v count ptr, cv_decode_p pf v = Ok (count, ptr) ->
+  deser_sample_names_p pf v = dec_names (N.to_nat count) 0 ptr.
+Proof. exact OpenStage_proofs.open2_loop_is_count_loop_proof. Qed.
+Print Assumptions open2_loop_is_count_loop.
+Example loop_nonvacuous : cv_decode_p Release [255; 255; 255; 255; 255; 97; 0] = Ok (270549119%N, [97; 0]) /\
+  snd (deser_sample_names_p Release [255; 255; 255; 255; 255; 97; 0]) = O2err e_no_nul.
+Proof. vm_compute. split; reflexivity. Qed.
+
 (* ---------------------------------------------------------------- never a garbage-sized buffer *)
 (* the log is: buffers sized from file content (footer, params part, sample part), each at most the FILE length;
    then possibly the stream zstd returned for a frame that is itself at most the file length - its size is
